@@ -81,6 +81,22 @@ fn wide_line(rng: &mut Rng, s: &Schema, groups: usize) -> String {
     format!("{{{}}}", parts.join(","))
 }
 
+/// thousands of lines: collections that an implementation may treat differently above some size (arrays of thousands of
+/// elements handed to array_unique, distinct sets, hundreds of groups)
+fn large_case(rng: &mut Rng, variant: usize) -> J {
+    let (spec, schema) = wide_table("t", 4);
+    let n = 5000 + rng.below(4000);
+    let distinct = *rng.pick(&[12usize, 300, 5000]);
+    let lines: Vec<String> = (0..n).map(|_| wide_line(rng, &schema, distinct)).collect();
+    let stmt = match variant % 4 {
+        0 => "SELECT array_unique ( array_agg ( i1 ) ) AS u , count ( DISTINCT i1 ) AS c FROM t",
+        1 => "SELECT k0 , array_unique ( array_agg ( i1 ) ) AS u , count ( DISTINCT r2 ) AS c FROM t GROUP BY k0",
+        2 => "SELECT DISTINCT i1 , k0 FROM t",
+        _ => "SELECT i1 , count ( * ) AS n , array_unique ( array_agg ( k0 ) ) AS u FROM t GROUP BY i1",
+    };
+    json!({"tables": spec.text(), "stmt": stmt, "lines": lines, "joined": null, "format": *rng.pick(&["text", "json", "csv"]), "large": true})
+}
+
 impl Monitor for C18 {
     fn id(&self) -> &'static str { "C18" }
     fn rule(&self) -> &'static str {
@@ -89,7 +105,15 @@ impl Monitor for C18 {
     fn assumptions(&self) -> Vec<String> { vec!["now() is never generated".into()] }
     fn sizes(&self, tier: Tier) -> Sizes { match tier { Tier::Quick => Sizes { cases: 480, min_nontrivial: 150 }, Tier::Thorough => Sizes { cases: 12_000, min_nontrivial: 3_000 } } }
 
-    fn generate(&self, rng: &mut Rng, _tier: Tier) -> J {
+    fn exhaustive_note(&self) -> Option<String> { Some("two large cases in every run: array_unique(array_agg(..)), COUNT(DISTINCT), GROUP BY over 5000-9000 lines (kind=large)".into()) }
+
+    fn enumerate(&self, _tier: Tier, emit: &mut dyn FnMut(J)) {
+        let mut rng = Rng::new(0x18_18);
+        for i in 0..2 { emit(large_case(&mut rng, i)); }
+    }
+
+    fn generate(&self, rng: &mut Rng, tier: Tier) -> J {
+        if rng.chance(1, if tier == Tier::Thorough { 150 } else { 400 }) { let v = rng.below(4); return large_case(rng, v); }
         let ncols = 12 + rng.below(5);
         // sometimes tables whose names differ from the queried one only in letter case are defined alongside, and the
         // statement may spell the name in yet another way (which resolves to nothing: an error, the same in every run)
